@@ -231,12 +231,8 @@ func (s *scheduler) settle() bool {
 			return true
 		}
 		spins++
-		if spins < 20 {
+		if spins < 300 {
 			runtime.Gosched()
-			continue
-		}
-		if spins < 60 {
-			time.Sleep(5 * time.Microsecond)
 			continue
 		}
 		// look at the goroutine states; dump first, flags afterwards
@@ -262,7 +258,9 @@ func (s *scheduler) settle() bool {
 		}
 		if all {
 			// confirm with a second look that nothing moved
-			time.Sleep(30 * time.Microsecond)
+			for k := 0; k < 50; k++ {
+				runtime.Gosched()
+			}
 			gs2 := allGoroutines()
 			same := true
 			for _, r := range s.roles {
@@ -285,7 +283,13 @@ func (s *scheduler) settle() bool {
 			s.stuck = true
 			return false
 		}
-		time.Sleep(20 * time.Microsecond)
+		if spins > 2000 {
+			time.Sleep(50 * time.Microsecond)
+		} else {
+			for k := 0; k < 50; k++ {
+				runtime.Gosched()
+			}
+		}
 	}
 }
 
